@@ -6,6 +6,7 @@ import (
 
 	"github.com/tidwall/btree"
 	"github.com/tidwall/geojson"
+	"github.com/tidwall/geojson/geo"
 	"github.com/tidwall/geojson/geometry"
 	"github.com/tidwall/rtree"
 	"github.com/tidwall/tile38/internal/deadline"
@@ -147,6 +148,36 @@ func rtreeValueUp(d float64) float32 {
 func rtreeItem(item *object.Object) (min, max [2]float32, data *object.Object) {
 	min, max = rtreeRect(item.Rect())
 	return min, max, item
+}
+
+// searchRect returns the rectangle that is looked up in the spatial index
+// for a query object. It is the bounding rectangle of the object, except for
+// circles: a circle matches points by their great-circle distance to its
+// center, and that disc is not covered by the rectangle of the circle's
+// polygon approximation near the poles, across the antimeridian and at its
+// eastern and western extremes.
+func searchRect(obj geojson.Object) geometry.Rect {
+	rect := obj.Rect()
+	circle, ok := obj.(*geojson.Circle)
+	if !ok || circle.Meters() <= 0 {
+		return rect
+	}
+	center := circle.Center()
+	minLat, minLon, maxLat, maxLon := geo.RectFromCenter(
+		center.Y, center.X, geo.NormalizeDistance(circle.Meters()))
+	if minLon < rect.Min.X {
+		rect.Min.X = minLon
+	}
+	if minLat < rect.Min.Y {
+		rect.Min.Y = minLat
+	}
+	if maxLon > rect.Max.X {
+		rect.Max.X = maxLon
+	}
+	if maxLat > rect.Max.Y {
+		rect.Max.Y = maxLat
+	}
+	return rect
 }
 
 func rtreeRect(rect geometry.Rect) (min, max [2]float32) {
@@ -432,7 +463,7 @@ func (c *Collection) geoSparse(
 ) bool {
 	matches := make(map[string]bool)
 	alive := true
-	c.geoSparseInner(obj.Rect(), sparse, func(o *object.Object) (match, ok bool) {
+	c.geoSparseInner(searchRect(obj), sparse, func(o *object.Object) (match, ok bool) {
 		ok = true
 		if !matches[o.ID()] {
 			match, ok = iter(o)
@@ -516,7 +547,7 @@ func (c *Collection) Within(
 			return match, ok
 		})
 	}
-	return c.geoSearch(obj.Rect(), func(o *object.Object) bool {
+	return c.geoSearch(searchRect(obj), func(o *object.Object) bool {
 		count++
 		if count <= offset {
 			return true
@@ -557,7 +588,7 @@ func (c *Collection) Intersects(
 			return match, ok
 		})
 	}
-	return c.geoSearch(gobj.Rect(), func(o *object.Object) bool {
+	return c.geoSearch(searchRect(gobj), func(o *object.Object) bool {
 		count++
 		if count <= offset {
 			return true
